@@ -526,6 +526,32 @@ impl IncWorld {
         }
     }
 
+    /// QueryMsg::Flows {} and QueryMsg::Flow { id } against the raw FLOWS entries: the queries must report every stored flow
+    /// with the identity, funding, claimed amount and epoch range it is stored with (the history maps may be windowed)
+    pub fn flow_queries_disagree(&self, st: &IncState) -> Option<String> {
+        // (the contract answers with the bare list of flows, not with the FlowsResponse wrapper its schema declares)
+        let all: Vec<Flow> = match self.app.wrap().query_wasm_smart(&self.incentive, &incentive::QueryMsg::Flows { start_epoch: None, end_epoch: None }) {
+            Ok(r) => r, Err(e) => return Some(format!("Flows query fails: {}", e)) };
+        if all.len() != st.flows.len() { return Some(format!("Flows reports {} flows, {} are stored", all.len(), st.flows.len())); }
+        let same = |f: &Flow, r: &FlowRec| f.flow_id == r.id && f.flow_label == r.label && f.flow_creator.as_str() == r.creator && f.flow_asset.info == r.asset
+            && f.flow_asset.amount.u128() == r.amount && f.claimed_amount.u128() == r.claimed && f.start_epoch == r.start && f.end_epoch == r.end;
+        for r in &st.flows {
+            if !all.iter().any(|f| same(f, r)) { return Some(format!("Flows does not report flow {} as stored", r.id)); }
+            let one: Result<Option<incentive::FlowResponse>, _> = self.app.wrap().query_wasm_smart(&self.incentive,
+                &incentive::QueryMsg::Flow { flow_identifier: FlowIdentifier::Id(r.id), start_epoch: None, end_epoch: None });
+            match one { Ok(Some(incentive::FlowResponse { flow: Some(f) })) if same(&f, r) => {}
+                        _ => return Some(format!("Flow{{id:{}}} does not report the flow as stored", r.id)) }
+            // labels are not unique (open_flow does not check); a label lookup returns the first stored flow carrying it
+            if let Some(l) = r.label.as_ref().filter(|l| st.flows.iter().filter(|x| x.label.as_ref() == Some(*l)).count() == 1) {
+                let one: Result<Option<incentive::FlowResponse>, _> = self.app.wrap().query_wasm_smart(&self.incentive,
+                    &incentive::QueryMsg::Flow { flow_identifier: FlowIdentifier::Label(l.clone()), start_epoch: None, end_epoch: None });
+                match one { Ok(Some(incentive::FlowResponse { flow: Some(f) })) if same(&f, r) => {}
+                            _ => return Some(format!("Flow{{label:{}}} does not report the flow as stored", l)) }
+            }
+        }
+        None
+    }
+
     /// CurrentEpochRewardsShare: (global weight, address weight, share atomics)
     pub fn share(&self, user: i64) -> Result<(u128, u128, String), String> {
         let app = &self.app;
